@@ -6,7 +6,7 @@ TERMS = ["a", "b", "c"]
 DYADIC = [Fraction(1, 2), Fraction(1, 4), Fraction(1, 8), Fraction(3, 8), Fraction(1, 16), Fraction(3, 16), Fraction(1), Fraction(5, 8), Fraction(3, 4)]
 SMALL = [Fraction(1, 2), Fraction(1, 4), Fraction(1, 8), Fraction(3, 8), Fraction(1, 16), Fraction(3, 16)]
 
-CFG_SHAPES = ["plain", "nullable", "nullable_run", "nullable_run", "mutual_left_rec", "mutual3", "nullable_cycle", "unary_chain", "unary_cycle", "left_rec", "right_rec",
+CFG_SHAPES = ["plain", "nullable", "nullable_run", "nullable_run", "mutual_left_rec", "lc_unary_cycle", "cnf_like", "mutual3", "nullable_cycle", "unary_chain", "unary_cycle", "left_rec", "right_rec",
               "useless", "nongen_start", "dup_rules", "start_on_rhs", "repeat_sym", "undefined_nt", "mixed",
               "empty_lang", "eps_only"]
 
@@ -99,6 +99,27 @@ def gen_cfg(rng, shape=None, nnt=None, nterms=None, convergent=True, maxrules=8,
             rules.append([rng.choice(W), "S", [rng.choice(terms), X]])
         if rng.random() < 0.5:
             rules.append([rng.choice(W), "S", [cyc[0]]])
+    elif shape == "lc_unary_cycle":
+        # an INDIRECT left-corner cycle whose way back is a unary rule (B -> D t, D -> B), entered first at B, which also has
+        # single-terminal rules; a later position expects only the inner node D (S -> B t D t)
+        rules.append([rng.choice(SMALL), "Lb", ["Ld", rng.choice(terms)]])
+        for t in terms:
+            rules.append([rng.choice(W), "Lb", [t]])
+        rules.append([rng.choice(SMALL), "Ld", ["Lb"]])
+        if rng.random() < 0.7:
+            rules.append([rng.choice(SMALL), "Ld", [rng.choice(terms), "Ld", rng.choice(terms)]])
+        rules.append([rng.choice(W), "S", ["Lb", rng.choice(terms), "Ld", rng.choice(terms)]])
+        if rng.random() < 0.3:
+            rules.append([rng.choice(W), "S", ["Ld", rng.choice(terms)]])
+    elif shape == "cnf_like":
+        # ALREADY in (textbook) Chomsky normal form — only A -> a and A -> B C — with the start symbol on right-hand sides and
+        # no empty rule: conversion must still take the start symbol off the right-hand sides
+        rules = []
+        for X in nts:
+            rules.append([rng.choice(W), X, [rng.choice(terms)]])
+            if rng.random() < 0.7:
+                rules.append([rng.choice(SMALL), X, [rng.choice(nts), rng.choice(nts)]])
+        rules.append([rng.choice(SMALL), "S", ["S", rng.choice(nts)] if rng.random() < 0.5 else [rng.choice(nts), "S"]])
     elif shape == "mutual3":
         # three (or four) mutually recursive nonterminals with chords: one SCC that a DFS can enter and close in many orders
         m = [f"M{k}" for k in rng.sample(range(9), rng.choice([3, 3, 4]))]
@@ -122,6 +143,16 @@ def gen_cfg(rng, shape=None, nnt=None, nterms=None, convergent=True, maxrules=8,
         cyc = rng.sample(nts, rng.randint(1, len(nts)))
         for x, y in zip(cyc, cyc[1:] + cyc[:1]):
             rules.append([rng.choice(SMALL), x, [y]])
+        if rng.random() < 0.5:
+            # a SECOND unary cycle (a self-loop or a 2-cycle) and a unary rule that links the two cyclic components:
+            # the link belongs to neither component's closure
+            z = ["Uz"] if rng.random() < 0.5 else ["Uz", "Uy"]
+            for x, y in zip(z, z[1:] + z[:1]):
+                rules.append([rng.choice(SMALL), x, [y]])
+            rules.append([rng.choice(SMALL), rng.choice(cyc), [z[0]]])
+            rules.append([rng.choice(W), z[-1], [rng.choice(terms)]])
+            if rng.random() < 0.3:
+                rules.append([rng.choice(SMALL), z[-1], [rng.choice(cyc)]] if False else [rng.choice(SMALL), "S", [z[0], rng.choice(terms)]])
     elif shape == "left_rec":
         rules.append([rng.choice(SMALL), A, [A, rng.choice(terms)]])
         rules.append([rng.choice(SMALL), "S", ["S"] + _rand_body(rng, nts, terms, 2)])
@@ -196,6 +227,15 @@ def gen_cfg(rng, shape=None, nnt=None, nterms=None, convergent=True, maxrules=8,
         rules = make_convergent(rules, V, rng)
     desc = {"S": "S", "V": sorted(V), "rules": [[frac_str(w), h, list(b)] for w, h, b in rules]}
     return desc, shape
+
+
+def intify_terms(desc, *string_lists):
+    """rename the terminals to the integers 0, 1, … (token ids): `0` is a FALSY terminal, as are the NUL byte and `()`;
+    returns (desc', renamed string lists)"""
+    m = {v: k for k, v in enumerate(desc["V"])}
+    f = lambda y: m.get(y, y) if isinstance(y, str) else y  # noqa
+    d = {**desc, "V": [m[v] for v in desc["V"]], "rules": [[w, h, [f(y) for y in b]] for w, h, b in desc["rules"]]}
+    return d, [[[f(y) for y in x] for x in xs] for xs in string_lists], m
 
 
 def to_bool(desc):
